@@ -348,6 +348,24 @@ def _dmu(nums_infl_or_prior, res):
     return [[r[0] - p[0] for p, r in zip(tp, tr)] for tp, tr in zip(nums_infl_or_prior, res)]
 
 
+_RK = [0]
+
+
+def _rk(order):
+    """a weak order as a rank vector, in one of four order-equivalent spellings chosen in turn: small ints, floats, ints above
+    the interpreter's small-int cache, non-integral floats (equal values are then distinct objects: a tie detected with `is`
+    or through an int() / round() is lost)"""
+    _RK[0] += 1
+    m = _RK[0] % 4
+    if m == 0:
+        return ("L", [("I", int(r)) for r in order])
+    if m == 1:
+        return ("L", [("F", float(r)) for r in order])
+    if m == 2:
+        return ("L", [("I", 1000 + int(r)) for r in order])
+    return ("L", [("F", r * 0.5 + 12.25) for r in order])
+
+
 def mon_C05(rng, budget, tier):
     mon = Mon("C05")
     i = 0
@@ -396,9 +414,9 @@ def mon_C05(rng, budget, tier):
             tau = rng.choice([OMIT, ("F", 0.0)])
             case = {"clause": "two-team", "kind": kind, "st": st, "nums": nums, "tau": tau}
             mon.case(case)
-            win = rate_nums(kind, st, nums, ranks=("L", [("I", 1), ("I", 2)]), tau=tau)
-            draw = rate_nums(kind, st, nums, ranks=("L", [("I", 1), ("I", 1)]), tau=tau)
-            loss = rate_nums(kind, st, nums, ranks=("L", [("I", 2), ("I", 1)]), tau=tau)
+            win = rate_nums(kind, st, nums, ranks=_rk([1, 2]), tau=tau)
+            draw = rate_nums(kind, st, nums, ranks=_rk([1, 1]), tau=tau)
+            loss = rate_nums(kind, st, nums, ranks=_rk([2, 1]), tau=tau)
             infl = _inflated(nums, eff_tau(st, tau))
             ss = _team_ss(infl)
             th = [sum(mu for mu, _ in t) for t in nums]
@@ -437,8 +455,8 @@ def mon_C05(rng, budget, tier):
             sw[a], sw[b] = sw[b], sw[a]
             case = {"clause": "exchange", "kind": kind, "st": st, "nums": nums, "order": order, "team": a, "with": b}
             mon.case(case)
-            r0 = rate_nums(kind, st, nums, ranks=("L", [("I", r) for r in order]))
-            r1 = rate_nums(kind, st, nums, ranks=("L", [("I", r) for r in sw]))
+            r0 = rate_nums(kind, st, nums, ranks=_rk(order))
+            r1 = rate_nums(kind, st, nums, ranks=_rk(sw))
             for j in range(len(nums[a])):
                 sc = max(abs(nums[a][j][0]), nums[a][j][1])
                 if r1[a][j][0] < r0[a][j][0] - 1e-12 * sc - 4 * ulp(sc):
@@ -464,7 +482,7 @@ def mon_C05(rng, budget, tier):
             rng.shuffle(order)
             case = {"clause": "identical teams", "kind": kind, "st": st, "nums": nums, "order": order, "twins": twins}
             mon.case(case)
-            r = rate_nums(kind, st, nums, ranks=("L", [("I", x) for x in order]))
+            r = rate_nums(kind, st, nums, ranks=_rk(order))
             for x in twins:
                 for y in twins:
                     if order[x] < order[y]:
@@ -714,7 +732,7 @@ def mon_C08(rng, budget, tier):
             case["nums"] = nums
         try:
             if op == "rate":
-                out = rate_nums(kind, st, nums, ranks=("L", [("I", r) for r in order]), tau=pc_tau)
+                out = rate_nums(kind, st, nums, ranks=_rk(order), tau=pc_tau)
             else:
                 out = call_predict(op, kind, st, nums)
         except Exception as ex:
@@ -739,8 +757,50 @@ def _predict_game(rng, kind=None, max_teams=8):
     return st, nums
 
 
+def _same_objects_probe(mon, rng, ops, n):
+    """the very same rating objects are shown to the predictions again after their numbers changed (assigned by the caller,
+    or updated in place by rate): the answer must be the one fresh objects with the new numbers get - nothing derived from
+    the old numbers may survive on the objects (a cached variance, a cached ordinal, a memo keyed by id)"""
+    for k in range(n):
+        if mon.full:
+            return
+        kind = KINDS[k % 5]
+        st, nums = _predict_game(rng)
+        if not (st["tau"] > 0 or all(sg > 0 for t in nums for _, sg in t)):
+            nums = [[(mu, sg if sg > 0 else st["beta"]) for mu, sg in t] for t in nums]
+        m = make_model(kind, st)
+        objs = to_python(teams_val(kind, nums))
+        f = {"pwin": m.predict_win, "pdraw": m.predict_draw, "prank": m.predict_rank}
+        how = "rate" if k % 3 == 0 else "assign"
+        case = {"kind": kind, "st": st, "nums_before": nums, "sequence": ["predict_*", how, "predict_* on the same objects"]}
+        try:
+            for op in ops:
+                f[op](objs)
+            if how == "rate":
+                m.rate(objs, ranks=[rng.randrange(3) for _ in objs])
+            else:
+                for t in objs:
+                    for pl in t:
+                        pl.mu = pl.mu + rng.uniform(-1, 1) * st["beta"]
+                        pl.sigma = pl.sigma * rng.choice([0.5, 0.9, 1.5, 2.0])
+            now = [[(pl.mu, pl.sigma) for pl in t] for t in objs]
+            case["nums_now"] = now
+            mon.case(case, True)
+            for op in ops:
+                got = f[op](objs)
+                want = call_predict(op, kind, st, now, model=make_model(kind, st))
+                if repr(got) != repr(want):
+                    mon.fail("same rating objects after their values changed", case, "%s on the objects seen before: %s; on fresh objects with the same numbers: %s" % (
+                        op, str(got)[:200], str(want)[:200]))
+        except api.ImplRaised:
+            raise
+        except Exception as ex:  # noqa: BLE001
+            mon.fail("same rating objects after their values changed", case, "%s: %s" % (type(ex).__name__, ex))
+
+
 def mon_C09(rng, budget, tier):
     mon = Mon("C09")
+    _same_objects_probe(mon, rng, ("pwin",), max(20, budget // 150))
     i = 0
     while mon.evaluations < budget and not mon.full:
         kind = KINDS[i % 5]
@@ -856,6 +916,7 @@ def mon_C09(rng, budget, tier):
 # C10  predict_draw
 def mon_C10(rng, budget, tier):
     mon = Mon("C10")
+    _same_objects_probe(mon, rng, ("pdraw",), max(20, budget // 150))
     i = 0
     while mon.evaluations < budget and not mon.full:
         kind = KINDS[i % 5]
@@ -932,6 +993,7 @@ def mon_C10(rng, budget, tier):
 # C11  predict_rank
 def mon_C11(rng, budget, tier):
     mon = Mon("C11")
+    _same_objects_probe(mon, rng, ("prank",), max(20, budget // 150))
     i = 0
     while mon.evaluations < budget and not mon.full:
         kind = KINDS[i % 5]
@@ -1575,19 +1637,23 @@ def mon_C16(rng, budget, tier):
         nums = gen.gen_teams_num(rng, st, shape, ints=False)
         nums = [[(mu, sg if sg > 0 else st["beta"]) for mu, sg in t] for t in nums]
         order = gen.random_weak_order(rng, len(shape))
-        ranks = ("L", [("I", r) for r in order])
-        infl = _inflated(nums, st["tau"])
+        ranks = _rk(order)
+        # every third game gives tau per call (the "tau" of the property's statement is then the per-call one: it is scaled
+        # with the rest, and left alone by a shift)
+        pt = rng.choice([0.0, st["beta"] / 50.0, st["beta"] * 1.5, st["tau"]]) if i % 3 == 0 else None
+        ptk = (lambda f=1.0: {} if pt is None else {"tau": ("F", pt * f)})
+        infl = _inflated(nums, st["tau"] if pt is None else pt)
         srel = _tm_tie_sigma_rel(kind, st, infl, order)
-        base = rate_nums(kind, st, nums, ranks=ranks)
+        base = rate_nums(kind, st, nums, ranks=ranks, **ptk())
         pbase = [call_predict(op, kind, st, nums) for op in ("pwin", "pdraw", "prank")]
         # ---- scaling
         k = 10 ** rng.uniform(-3, 3) if rng.random() < 0.7 else rng.choice([1e-3, 1e3, 120.0, 2.0 ** -10])
         st_k = _scale_state(st, k)
         nums_k = [[(mu * k, sg * k) for mu, sg in t] for t in nums]
-        case = {"clause": "scale", "kind": kind, "st": st, "nums": nums, "order": order, "k": k}
+        case = {"clause": "scale", "kind": kind, "st": st, "nums": nums, "order": order, "k": k, "per_call_tau": pt}
         mon.case(case)
         if kind in ("PL", "BTF", "BTP"):
-            got = rate_nums(kind, st_k, nums_k, ranks=ranks)
+            got = rate_nums(kind, st_k, nums_k, ranks=ranks, **ptk(k))
             for t in range(len(nums)):
                 for j in range(len(nums[t])):
                     a, b = base[t][j], got[t][j]
@@ -1605,9 +1671,9 @@ def mon_C16(rng, budget, tier):
             room_up, room_dn = 20 * st["beta"] - hi, -20 * st["beta"] - lo
             a_ = rng.uniform(room_dn, room_up)
             nums_s = [[(mu + a_, sg) for mu, sg in t] for t in nums]
-            case = {"clause": "shift", "kind": kind, "st": st, "nums": nums, "order": order, "shift": a_}
+            case = {"clause": "shift", "kind": kind, "st": st, "nums": nums, "order": order, "shift": a_, "per_call_tau": pt}
             mon.case(case)
-            got = rate_nums(kind, st, nums_s, ranks=ranks)
+            got = rate_nums(kind, st, nums_s, ranks=ranks, **ptk())
             for t in range(len(nums)):
                 for j in range(len(nums[t])):
                     x, y = base[t][j], got[t][j]
@@ -1834,6 +1900,29 @@ def mon_C18(rng, budget, tier):
         eq = (m1 == m2 and s1 == s2)
         if (a == b) is not eq or (a != b) is not (not eq):
             mon.fail("== iff mu and sigma both equal", case, "a == b is %r, a != b is %r" % (a == b, a != b))
+        if i % 2 == 0:
+            # the same two objects after their numbers were assigned anew: nothing computed before may be remembered.  Every
+            # sixth time the change is -1 -> -2, the one pair of small numbers with equal hash() (a memo keyed or tagged by
+            # hash(self) / hash((mu, sigma)) does not notice it)
+            if i % 6 == 0:
+                a.mu, b.sigma = (-1.0 if i % 12 else -1), (-1.0 if i % 12 else -1)
+                a < b, a.ordinal(), b.ordinal(), a == b, hash(a), hash(b)
+                n1, t1, n2, t2 = (-2.0 if i % 12 else -2), a.sigma, b.mu, (-2.0 if i % 12 else -2)
+            else:
+                n1, t1, n2, t2 = (rng.choice(vals + [-2, -2.0]) for _ in range(4))
+            a.mu, a.sigma, b.mu, b.sigma = n1, t1, n2, t2
+            c2 = {"kind": kind, "a": (n1, t1), "b": (n2, t2), "same_objects_previously": [case["a"], case["b"]]}
+            mon.case(c2, True)
+            o1, o2 = n1 - 3 * t1, n2 - 3 * t2
+            if a.ordinal() != o1 or b.ordinal() != o2:
+                mon.fail("ordinal(z) = mu - z*sigma", c2, "after assigning new values ordinal() = %r, %r" % (a.ordinal(), b.ordinal()))
+            w2 = {"lt": o1 < o2, "le": o1 <= o2, "gt": o1 > o2, "ge": o1 >= o2}
+            for nm, f in ops.items():
+                if f(a, b) is not w2[nm]:
+                    mon.fail("operator agrees with ordinal comparison", c2, "after assigning new values a %s b is %r, ordinals %r, %r" % (nm, f(a, b), o1, o2))
+            e2 = (n1 == n2 and t1 == t2)
+            if (a == b) is not e2 or (a != b) is not (not e2):
+                mon.fail("== iff mu and sigma both equal", c2, "after assigning new values a == b is %r" % (a == b))
         if i % 10 == 0:
             rs = [R(rng.choice(vals), rng.choice(vals)) for _ in range(rng.randint(2, 9))]
             ords = [x.ordinal() for x in sorted(rs)]
@@ -1874,6 +1963,7 @@ def _norm_sig(kind, f):
 
 def mon_C19(rng, budget, tier):
     mon = Mon("C19")
+    _same_objects_probe(mon, rng, ("pwin", "pdraw", "prank"), max(20, budget // 100))
     # signatures / operations
     pub = lambda cls: sorted(n for n in dir(cls) if not n.startswith("_") and callable(getattr(cls, n)))  # noqa: E731
     ref_ops = pub(MODEL["PL"])
